@@ -4,8 +4,9 @@
 (* second file; a module defined in both files - the first definition wins).       *)
 EXTENDS ConfigRules, Json
 CONSTANTS NMods, Choices, Splits,
-          Modes     \* "plain" | "share" (one Param object for several modules) | "twice" (configuration processed twice)
-VARIABLES assign, split, mode
+          Scen      \* scenario names (ScenTable): mode "plain" | "share" (one Param object for several modules)
+                    \* | "twice" (configuration processed twice) x kind vector 1 .. 3 (KindVecs)
+VARIABLES assign, split, scen
 
 E(par, prop, form, ty, n) == [par |-> par, prop |-> prop, form |-> form, v |-> [ty |-> ty, n |-> n, m |-> 0]]
 Base == {E("mp", "value", "B", "int", 6), E("n", "value", "B", "int", 10)}
@@ -21,22 +22,30 @@ NodeCfgs == <<
   Base \cup {E("c", "foo", "P", "int", 2)},                                       \* 8 unknown command property
   {E("mp", "value", "B", "int", 6)} >>                                            \* 9 missing needscfg value
 Name(k) == "m" \o ToString(k)
-Mod(k) == [m |-> Name(k), cfg |-> NodeCfgs[assign[k]]]
+(* how the modules are served: all polled / unpolled, unpolled on an io, polled / on io, polled by io, unpolled *)
+KindVecs == << <<"polled", "polled", "polled">>, <<"unpolled", "onio", "polled">>, <<"onio", "pio", "unpolled">> >>
+ScenTable == [plain1 |-> <<"plain", 1>>, share1 |-> <<"share", 1>>, twice1 |-> <<"twice", 1>>,
+              plain2 |-> <<"plain", 2>>, share2 |-> <<"share", 2>>, twice2 |-> <<"twice", 2>>,
+              plain3 |-> <<"plain", 3>>, share3 |-> <<"share", 3>>, twice3 |-> <<"twice", 3>>]
+mode == ScenTable[scen][1]
+kvec == ScenTable[scen][2]
+KindOfMod(k) == KindVecs[kvec][k]
+Mod(k) == [m |-> Name(k), cfg |-> NodeCfgs[assign[k]], kind |-> KindOfMod(k)]
 
-GInit == assign = <<>> /\ split \in Splits /\ mode \in Modes
+GInit == assign = <<>> /\ split \in Splits /\ scen \in Scen
 GNext == /\ Len(assign) < NMods
          /\ \E c \in Choices : assign' = Append(assign, c)
-         /\ UNCHANGED <<split, mode>>
-GSpec == GInit /\ [][GNext]_<<assign, split, mode>>
+         /\ UNCHANGED <<split, scen>>
+GSpec == GInit /\ [][GNext]_<<assign, split, scen>>
 
 (* split 0: one file; 1: the last module lives in a second file; 2: the second file redefines *)
 (* module m1 with configuration 4 (wrong type) - it must be ignored - and holds the last one  *)
 Files == IF split = 0 THEN << [k \in 1 .. NMods |-> Mod(k)] >>
          ELSE IF split = 1 THEN << [k \in 1 .. NMods - 1 |-> Mod(k)], << Mod(NMods) >> >>
-         ELSE << [k \in 1 .. NMods - 1 |-> Mod(k)], << [m |-> Name(1), cfg |-> NodeCfgs[4]], Mod(NMods) >> >>
+         ELSE << [k \in 1 .. NMods - 1 |-> Mod(k)], << [m |-> Name(1), cfg |-> NodeCfgs[4], kind |-> "polled"], Mod(NMods) >> >>
 Merged == Merge(Files)
 Emit1 == Len(assign) = NMods =>
-   PrintT(<<"BEH", ToJson([files |-> Files, mode |-> mode,
+   PrintT(<<"BEH", ToJson([files |-> Files, mode |-> mode, iopolled |-> (kvec # 3),
                            allowed |-> [m \in DOMAIN Merged |-> Allowed(Merged[m])],
                            origin |-> [m \in DOMAIN Merged |-> FirstFile(Files, m)],
                            writes |-> [m \in DOMAIN Merged |-> WriteSet(Merged[m])]])>>)
